@@ -1368,9 +1368,10 @@ theorem sum_spec (h : Heap) (p : PBA) (hwf : WF h p) : sum h p = .ok ((toBools h
 /-- the padding bits after the last element, inside the view's own bytes, are zero -/
 def PadZero (h : Heap) (p : PBA) : Prop := ∀ k, p.A + p.n ≤ k → k < 8 * (p.off + p.len) → hbit h k = false
 
-theorem resize_spec (h : Heap) (p : PBA) (hwf : WF h p) (hown : p.own = true) (newsize : Nat)
+theorem resize_spec (h : Heap) (p : PBA) (hwf : WF h p) (newsize : Nat)
     (hge : p.n ≤ newsize) (hpad : PadZero h p) :
-    ∃ h' p', resize h p newsize = ((h', p'), none) ∧ WF h' p' ∧ p'.n = newsize ∧ p'.own = true ∧
+    ∃ h' p', resize h p newsize = ((h', p'), none) ∧ WF h' p' ∧ p'.n = newsize ∧
+      (p.own = true ∨ p.n < newsize → p'.own = true) ∧
       toBools h' p' = toBools h p ++ List.replicate (newsize - p.n) false ∧
       (∀ k, k < 8 * h.size → hbit h' k = hbit h k) ∧ h.size ≤ h'.size := by
   have hs := hwf.stop_eq
@@ -1379,20 +1380,22 @@ theorem resize_spec (h : Heap) (p : PBA) (hwf : WF h p) (hown : p.own = true) (n
   have hsize : p.size = (p.n : Int) := by simp only [PBA.size, PBA.n]; omega
   by_cases heq : newsize = p.n
   · subst heq
-    refine ⟨h, p, ?_, hwf', rfl, hown, by simp, fun _ _ => rfl, Nat.le_refl _⟩
+    refine ⟨h, p, ?_, hwf', rfl, fun hh => hh.elim id (fun hlt => absurd hlt (Nat.lt_irrefl _)), by simp,
+      fun _ _ => rfl, Nat.le_refl _⟩
     unfold resize
     rw [if_neg (by rw [hsize]; omega), if_pos (by rw [hsize]; simp)]
   · have hlt : p.n < newsize := by omega
     have hnd : (if ((newsize : Int) + p.start) % 8 != 0 then ((newsize : Int) + p.start) / 8 + 1
         else ((newsize : Int) + p.start) / 8).toNat = (newsize + p.start + 7) / 8 := by
       split <;> rename_i hc <;> simp at hc <;> omega
-    by_cases hsame : (newsize + p.start + 7) / 8 = p.len
-    · -- same number of bytes: only `_stop_index` moves
+    by_cases hsame : p.own = true ∧ (newsize + p.start + 7) / 8 = p.len
+    · -- an owning buffer with the same number of bytes: only `_stop_index` moves
       have hwn : WF h { p with stop := (newsize : Int) + p.start } := ⟨a1, by simp; omega, by simp; omega, by simp; omega, a5⟩
-      refine ⟨h, { p with stop := (newsize : Int) + p.start }, ?_, hwn, by simp [PBA.n], hown, ?_, fun _ _ => rfl, Nat.le_refl _⟩
+      refine ⟨h, { p with stop := (newsize : Int) + p.start }, ?_, hwn, by simp [PBA.n], fun _ => hsame.1, ?_,
+        fun _ _ => rfl, Nat.le_refl _⟩
       · unfold resize
         rw [if_neg (by rw [hsize]; omega), if_neg (by rw [hsize]; simp; omega)]
-        simp only [hnd, hsame, beq_self_eq_true, if_true]
+        simp only [hnd, hsame.1, hsame.2, beq_self_eq_true, Bool.and_self, if_true]
       · apply List.ext_getElem?
         intro i
         rw [toBools_getElem? _ _ hwn, List.getElem?_append, toBools_length _ _ hwf', toBools_getElem? _ _ hwf']
@@ -1405,20 +1408,21 @@ theorem resize_spec (h : Heap) (p : PBA) (hwf : WF h p) (hown : p.own = true) (n
           · simp only [c1, c2, if_true, if_false, List.getElem?_replicate]
             rw [if_pos (by omega), hpad _ (by omega) (by simp only [PBA.A]; omega)]
           · simp [c1, c2, List.getElem?_replicate]; omega
-    · -- reallocation: the buffer moves to the end of the heap
-      have hgt : p.len < (newsize + p.start + 7) / 8 := by omega
+    · -- copy and/or reallocation: the buffer moves to the end of the heap
+      have hgt : p.len ≤ (newsize + p.start + 7) / 8 := by omega
       let nd := (newsize + p.start + 7) / 8
       let bytes := ((p.data h).take nd) ++ List.replicate (nd - p.len) (0 : Byte)
       have hdl := data_length h p a5
       have hbl : bytes.length = nd := by simp [bytes, hdl]; omega
-      let p' : PBA := ⟨h.size, nd, p.start, (newsize : Int) + p.start, p.own⟩
+      let p' : PBA := ⟨h.size, nd, p.start, (newsize : Int) + p.start, true⟩
       have hwn : WF (h ++ bytes.toArray) p' :=
         ⟨a1, by simp [p']; omega, by simp [p', nd]; omega, by simp [p', nd]; omega, by simp [p', hbl]⟩
-      refine ⟨h ++ bytes.toArray, p', ?_, hwn, by simp [p', PBA.n], hown, ?_, fun k hk => hbit_append_old h bytes k hk, by simp⟩
+      refine ⟨h ++ bytes.toArray, p', ?_, hwn, by simp [p', PBA.n], fun _ => rfl, ?_,
+        fun k hk => hbit_append_old h bytes k hk, by simp⟩
       · unfold resize
         rw [if_neg (by rw [hsize]; omega), if_neg (by rw [hsize]; simp; omega)]
         simp only [hnd]
-        rw [if_neg (by simp; omega), if_neg (by simp [hown])]
+        rw [if_neg (by simp only [Bool.and_eq_true, beq_iff_eq]; exact hsame)]
       · apply List.ext_getElem?
         intro i
         rw [toBools_getElem? _ _ hwn, List.getElem?_append, toBools_length _ _ hwf', toBools_getElem? _ _ hwf']
@@ -1648,7 +1652,7 @@ def bitsNat (l : List Bool) : List Nat := l.map fun b => if b then 1 else 0
 theorem count_true_eq_sum (l : List Bool) : l.count true = (bitsNat l).sum := by
   induction l with
   | nil => rfl
-  | cons b bs ih => cases b <;> simp [bitsNat, List.count_cons] at ih ⊢ <;> omega
+  | cons b bs ih => cases b <;> simp [bitsNat] at ih ⊢ <;> omega
 
 theorem prodL_foldl (l : List Nat) (a : Nat) : l.foldl (· * ·) a = a * prodL l := by
   unfold prodL
@@ -1684,8 +1688,7 @@ theorem getD_map_range (g : Nat → Nat) (n j : Nat) :
   rw [List.getD_eq_getElem?_getD, List.getElem?_map]
   by_cases c : j < n
   · simp [c]
-  · have : (List.range n)[j]? = none := by simp; omega
-    simp [c, this]
+  · simp [c]
 
 /-- `sumAxis` over the last axis: `shape = init ++ [A]`. -/
 theorem sumAxis_last (x : List Nat) (init : List Nat) (A : Nat) :
@@ -1720,8 +1723,7 @@ theorem data_eq_map (h : Heap) (p : PBA) (hin : p.off + p.len ≤ h.size) :
   rw [data_getElem? h p hin]
   by_cases c : i < p.len
   · simp [c]
-  · have : (List.range p.len)[i]? = none := by simp; omega
-    simp [c, this]
+  · simp [c]
 
 /-- facts shared by the reshaped sums of an aligned array -/
 theorem aligned_counts (h : Heap) (p : PBA) (hwf : WF h p) (h0 : p.start = 0) (h8 : p.stop % 8 = 0) :
@@ -1763,7 +1765,7 @@ theorem sumShaped_none (h : Heap) (p : PBA) (hwf : WF h p) (h0 : p.start = 0) (h
   have hs := hwf.stop_eq
   have hsize : p.size = (p.n : Int) := by simp only [PBA.size]; omega
   have hnew : (init ++ [8 * c]).set ((init ++ [8 * c]).length - 1) (8 * c / 8) = init ++ [c] := by
-    simp [List.set_append]
+    simp
   have hpl : prodL (init ++ [c]) = p.len := by
     rw [prodL_append_single] at hprod ⊢
     have : prodL init * (8 * c) = 8 * (prodL init * c) := by rw [Nat.mul_left_comm]
@@ -1776,8 +1778,8 @@ theorem sumShaped_none (h : Heap) (p : PBA) (hwf : WF h p) (h0 : p.start = 0) (h
     simp only [PBA.A, h0]; congr 1; omega
   have h8c : 8 * c / 8 = c := by omega
   have h8m : 8 * c % 8 = 0 := by omega
-  simp [sumShaped, h0, h8, bind, Except.bind, pure, Except.pure, hprod, hsize, List.getLast?_append,
-    hpl, hl, hsum, h8c, h8m, List.set_append]
+  simp [sumShaped, h0, h8, pure, Except.pure, hprod, hsize, List.getLast?_append,
+    hpl, hl, hsum, h8c, h8m]
 
 theorem sumShaped_last (h : Heap) (p : PBA) (hwf : WF h p) (h0 : p.start = 0) (h8 : p.stop % 8 = 0)
     (init : List Nat) (c : Nat) (hprod : prodL (init ++ [8 * c]) = p.n) (a : Int)
@@ -1807,7 +1809,7 @@ theorem sumShaped_last (h : Heap) (p : PBA) (hwf : WF h p) (h0 : p.start = 0) (h
       | nil => exact absurd rfl hne
       | cons x xs => simp; omega
   simp [sumShaped, h0, h8, bind, Except.bind, pure, Except.pure, hprod, hsize, List.getLast?_append,
-    hpl, hl, h8c, h8m, List.set_append, hk, hge, hne0, hax]
+    hpl, hl, h8c, h8m, hk, hge, hne0, hax]
   have e1 : ¬ ((init.length : Int) < 0) := by omega
   have e2 : (init ++ [c]).eraseIdx init.length = init := by
     rw [List.eraseIdx_append_of_length_le (Nat.le_refl _)]; simp
